@@ -210,7 +210,7 @@ func main() {
 	b2 = append(b2, newBatches(e, "units", unitsLeft, 170)...)
 	b2 = append(b2, newBatches(e, "corpus", corpus, 1<<30)...)
 	b2 = append(b2, newBatches(e, "seeded", rest, e.Pick(70, 250))...)
-	all2, inc2 := runBatches(b2, e.Pick(6, 4), regTmpl, mainGo)
+	all2, inc2 := runBatches(b2, e.Pick(12, 4), regTmpl, mainGo)
 	for _, s := range inc2 {
 		e.Inconclusive(s)
 	}
